@@ -50,8 +50,9 @@ class PropBase:
             return None
         q = rng.choice([0.15, 0.4, 0.8])
         ops, n = [], 0
+        start = (sc.get('judge_view') or {}).get('skip', 0)
         for k, op in enumerate(sc['ops']):
-            if op.get('op') == 'process' and 'rx' not in op and 'tx' not in op and rng.random() < q:
+            if k >= start and op.get('op') == 'process' and 'rx' not in op and 'tx' not in op and rng.random() < q:
                 ops.append(dict(op, tx=False))
                 n += 1
             else:
@@ -62,7 +63,57 @@ class PropBase:
         sc['tags'] = list(sc.get('tags', [])) + ['rx_only_gaps']
         return sc
 
+    # probability that the layer of a single-endpoint scenario is first constructed with ANOTHER address, receives a short multi-frame message
+    # there (so that anything derived from the address - cached flags, cached Flow Control frames - exists), and is then moved to the address
+    # the scenario is about with the documented set_address().  The judges see the scenario as if the layer had been constructed with the
+    # final address (`judge_view`); the model (driver op `setaddr`) sees everything.
+    address_change = 0.0
+
+    def mix_address_change(self, rng, sc):
+        import gen
+        import ref
+        if not self.address_change or rng.random() >= self.address_change or sc.get('no_model'):
+            return sc
+        ops = sc['ops']
+        if not ops or ops[0].get('op') != 'layer' or ops[0].get('i') != 0 or 'judge_view' in sc or ops[0].get('cls') is not None:
+            return sc
+        first = ops[0]
+        other, _ = gen.rand_addr_pair(rng, asym_prob=0.2)
+        params = dict(first.get('params') or {})
+        pre = [dict(first, addr=other)]
+        if not params.get('listen_mode') and rng.random() < 0.8:
+            try:
+                rxh = ref.half(other, 'rx')
+                px = gen.rx_match_frame(other, b'\x00')[2][:1] if ref.rx_prefix_len(rxh) else b''
+                frames = ref.foreign_stream(bytes(range(1, 11)), 8, prefix=px, last='min')
+                fid, ext, _ = gen.rx_match_frame(other, b'')
+                for fr in frames:
+                    pre.append({'op': 'frame', 'i': 0, 'id': fid, 'ext': ext, 'data': fr})
+                    pre.append({'op': 'process', 'i': 0})
+                pre.append({'op': 'recv', 'i': 0})
+                pre.append({'op': 'recv', 'i': 0})
+            except Exception:
+                pre = [dict(first, addr=other)]
+        pre.append({'op': 'set_address', 'i': 0, 'addr': first['addr']})
+        pre = [dict(o, keep=True) for o in pre]
+        rest = [dict(op, _o=j + 1) for j, op in enumerate(ops[1:])]      # index in the scenario as generated
+        sc = dict(sc, ops=pre + rest, judge_view={'skip': len(pre), 'layer_op': dict(first, _o=0)})
+        sc['tags'] = list(sc.get('tags', [])) + ['address_change']
+        return sc
+
+    @staticmethod
+    def judge_view(sc, li, lo):
+        """(scenario, lines_in, lines_out) as the judge should see them"""
+        jv = sc.get('judge_view')
+        if not jv:
+            return sc, li, lo
+        k = jv['skip']
+        if len(li) < k or (k <= len(lo) and not lo[k - 1].split('|')[1:2] == ['ok']):
+            return sc, li, lo
+        return dict(sc, ops=[jv['layer_op']] + sc['ops'][k:]), [li[0]] + li[k:], ['ok'] + lo[k:]
+
     def mix_partial_passes(self, rng, sc):
+        sc = self.mix_address_change(rng, sc)
         g = self.mix_rx_only_gaps(rng, sc)
         if g is not None:
             return g
@@ -72,9 +123,10 @@ class PropBase:
         q = rng.choice([0.1, 0.3, 0.8])
         ops = []
         n = 0
+        start = (sc.get('judge_view') or {}).get('skip', 0)
         for k, op in enumerate(sc['ops']):
-            op = dict(op, _o=k)         # index in the scenario as generated (judges that reason with op indices map through it)
-            if op.get('op') != 'process' or 'rx' in op or 'tx' in op or rng.random() >= q:
+            op = dict(op, _o=op.get('_o', k))         # index in the scenario as generated (judges that reason with op indices map through it)
+            if k < start or op.get('op') != 'process' or 'rx' in op or 'tx' in op or rng.random() >= q:
                 ops.append(op)
                 continue
             n += 1
@@ -148,6 +200,8 @@ class PropBase:
             dist['enumerated_scenarios'] = dist.get('enumerated_scenarios', 0) + 1
         if 'rx_only_gaps' in sc.get('tags', ()):
             dist['correspondence_only_scenarios_with_receive_only_passes'] = dist.get('correspondence_only_scenarios_with_receive_only_passes', 0) + 1
+        if 'address_change' in sc.get('tags', ()):
+            dist['scenarios_with_set_address'] = dist.get('scenarios_with_set_address', 0) + 1
         if 'partial_passes' in sc.get('tags', ()):
             dist['scenarios_with_partial_passes'] = dist.get('scenarios_with_partial_passes', 0) + 1
         for l in lines_in:
